@@ -37,6 +37,9 @@ type decResp struct {
 	Died  string `json:"died"` // set by the parent when the worker process died on this case
 }
 
+// entryDecodeNet: further entry points (network paths), registered by c05net.go
+var entryDecodeNet func(entry string, bs []byte) (obs string, errMsg string, handled bool)
+
 func workerMain() {
 	initRegistry()
 	lim := uint64(6 << 30)
@@ -59,7 +62,13 @@ func workerMain() {
 		runtime.ReadMemStats(&m0)
 		t0 := time.Now()
 		if rq.Entry != "" {
-			rs.Obs, rs.Err = entryDecode(rq.Entry, rq.Bytes)
+			handled := false
+			if entryDecodeNet != nil {
+				rs.Obs, rs.Err, handled = entryDecodeNet(rq.Entry, rq.Bytes)
+			}
+			if !handled {
+				rs.Obs, rs.Err = entryDecode(rq.Entry, rq.Bytes)
+			}
 		} else {
 			target := registry[rq.Sid].mk()
 			if rq.PriorSeed != 0 {
